@@ -5,7 +5,7 @@
   param_source(f, body, op)    trace an operand back through copies, re-borrows and closure / coroutine captures
                                to the parameter of the enclosing function it comes from
   edge_dominates(body, s, t, b) every path from the entry to block b takes the CFG edge s->t
-  controls(body, edge, b)      same, with the edge given as (switch block, target)
+  backslice(body, op)          data-only backward slice of an operand (consts / calls / places / params)
 """
 from . import mir
 
@@ -77,7 +77,7 @@ def after_await(body, a, block):
     rp = ready_points(body, a)
     if not rp:
         return False
-    return block not in mir.reachable(body, [0], avoid={b for b, i, l in rp}) or block in {b for b, i, l in rp}
+    return block not in mir.reachable(body, [0], avoid={b for b, i, l in rp})
 
 
 # ------------------------------------------------------------------------------------------ captures
@@ -156,3 +156,136 @@ def edge_is_unique(body, src, tgt):
     """src has exactly one edge to tgt (a switch with two values going to the same block would make
     'the edge' ambiguous)"""
     return mir.succs(body)[src].count(tgt) == 1
+
+
+# ------------------------------------------------------------------------------------------ backward slice
+def backslice(body, op, limit=400):
+    """Data-only backward slice of an operand inside one body (over-approximate, flow-insensitive):
+    returns {'consts': [const dicts], 'calls': [Call], 'places': [place], 'params': {locals}}.
+    Everything the operand's value may have been computed from, through copies, borrows, aggregates,
+    casts and call arguments."""
+    out = {"consts": [], "calls": [], "places": [], "params": set()}
+    seen_l = set()
+    seen_c = set()
+    work = [op]
+    n = 0
+    while work and n < limit:
+        n += 1
+        cur = work.pop()
+        if cur[0] == "k":
+            out["consts"].append(cur[1])
+            continue
+        o = mir.origin(body, cur)
+        if o[0] == "const":
+            out["consts"].append(o[1])
+            continue
+        if o[0] == "call":
+            c = o[1]
+            if id(c.c) not in seen_c:
+                seen_c.add(id(c.c))
+                out["calls"].append(c)
+                work.extend(c.args)
+            continue
+        if o[0] == "rv":
+            work.extend(mir.rvalue_operands(o[1]))
+            continue
+        pl = o[1]
+        out["places"].append(pl)
+        l = pl[0]
+        for p in pl[1]:
+            if isinstance(p, list) and p[0] == "[]":
+                work.append(["c", [p[1], []]])
+        if 0 < l <= body.d["argc"]:
+            out["params"].add(l)
+            continue
+        if l in seen_l:
+            continue
+        seen_l.add(l)
+        for d in mir.defs_of(body, l):
+            if d[0] == "call":
+                c = d[1]
+                if id(c.c) not in seen_c:
+                    seen_c.add(id(c.c))
+                    out["calls"].append(c)
+                    work.extend(c.args)
+            else:
+                rv = d[4]
+                if rv[0] in ("ref", "rawptr", "discr"):
+                    inner = rv[2] if rv[0] != "discr" else rv[1]
+                    out["places"].append(inner)
+                    work.append(["c", [inner[0], []]])
+                else:
+                    work.extend(mir.rvalue_operands(rv))
+    return out
+
+
+def slice_has_field(sl, name, owner_prefix):
+    for pl in sl["places"]:
+        for p in pl[1]:
+            if isinstance(p, list) and p[0] == "." and p[2] == name and str(p[3]).startswith(owner_prefix):
+                return True
+    return False
+
+
+def slice_has_call(sl, pred):
+    return [c for c in sl["calls"] if pred(c)]
+
+
+def slice_has_str(sl, s):
+    for k in sl["consts"]:
+        if k.get("v") == s:
+            return True
+    return False
+
+
+# ------------------------------------------------------------------------------------------ bus-driver sender checks
+DRIVER = "org.freedesktop.DBus"
+
+
+def is_sender_call(c):
+    return c.is_("sender") and "message::header::Header" in c.callee
+
+
+def driver_checks(body, msg_locals):
+    """[(switch block, equal_edge_target, other_target)] for eq/ne comparisons between a Header::sender() value of a
+    message in msg_locals and the driver name constant"""
+    out = []
+    for sb, cc, tt, ft, neg in mir.call_bool_switches(body):
+        if not cc.is_("eq", "ne") or len(cc.args) < 2 or tt == ft or tt is None or ft is None:
+            continue
+        if cc.is_("ne"):
+            tt, ft = ft, tt
+        sl = [backslice(body, a) for a in cc.args[:2]]
+        for x, y in ((0, 1), (1, 0)):
+            scalls = slice_has_call(sl[x], is_sender_call)
+            if not scalls or not slice_has_str(sl[y], DRIVER):
+                continue
+            # the header whose sender is compared belongs to one of the messages in msg_locals
+            ok = False
+            for sc in scalls:
+                hs = backslice(body, sc.args[0]) if sc.args else None
+                if hs and (hs["params"] & msg_locals or {p[0] for p in hs["places"]} & msg_locals):
+                    ok = True
+            if ok:
+                out.append((sb, tt, ft))
+    return out
+
+
+def matches_checks_wellknown_sender(f):
+    """alternative discharge: MatchRule::matches compares the header's sender on the WellKnown arm of the rule's sender"""
+    ms = f.find(name="matches", adt="zbus::match_rule::MatchRule", trait="")
+    if len(ms) != 1:
+        return False
+    m = ms[0]
+    for sb, place, adt, arms, other in mir.discr_switches(m, f, "zbus_names::bus_name::BusName"):
+        sl = backslice(m, ["c", [place[0], []]])
+        if not slice_has_call(sl, lambda c: c.is_("sender") and "MatchRule" in c.callee):
+            continue
+        wk, un = arms.get("WellKnown"), arms.get("Unique")
+        if wk is None:
+            continue
+        excl = mir.reachable(m, [wk]) - (mir.reachable(m, [un]) if un is not None else set())
+        for c in mir.calls(m):
+            if c.b in excl and is_sender_call(c):
+                return True
+    return False
